@@ -302,7 +302,13 @@ Lemma close_table_cell_lineage v e ks s s' :
 Proof.
   intro H. unfold close_table_cell in H.
   bind_inv H as pr Epr. cbv zeta in H.
-  bind_inv H as rows0 Erows0. bind_inv H as dummy Edummy.
+  (* the two early returns of the repaired _close_table_cell *)
+  destruct (c_tree s) as [|tb0 root0] eqn:Eroot0; [injection H as <-; apply keepl_refl|].
+  rewrite <- Eroot0 in H.
+  bind_inv H as rows0 Erows0.
+  destruct rows0 as [|rb0 rows1] eqn:Erows1; [injection H as <-; apply keepl_refl|].
+  rewrite <- Erows1 in H.
+  bind_inv H as dummy Edummy.
   bind_inv H as s1 Es1. bind_inv H as span Espan.
   assert (K1 : keepl 3 (c_lineage s) (c_lineage s1)).
   { clear H Espan.
@@ -892,7 +898,13 @@ Lemma close_table_cell_in_tbl old v e ks s s' :
 Proof.
   intros Hs H. unfold close_table_cell in H.
   bind_inv H as pr Epr. cbv zeta in H.
-  bind_inv H as rows0 Erows0. bind_inv H as dummy Edummy.
+  (* the two early returns of the repaired _close_table_cell *)
+  destruct (c_tree s) as [|tb0 root0] eqn:Eroot0; [injection H as <-; exact Hs|].
+  rewrite <- Eroot0 in H.
+  bind_inv H as rows0 Erows0.
+  destruct rows0 as [|rb0 rows1] eqn:Erows1; [injection H as <-; exact Hs|].
+  rewrite <- Erows1 in H.
+  bind_inv H as dummy Edummy.
   assert (Eti : (length (c_tree s) - 1 = length old)%nat).
   { destruct Hs as (_ & tbl & T & _). rewrite T. cbn [length]. lia. }
   rewrite Eti in H.
@@ -936,7 +948,8 @@ Proof.
     destruct Ha as (Da & tbla & Ta & Hoka). rewrite Ta in Eroot.
     destruct (upd_row_head _ _ _ _ _ Eroot) as (tbl' & -> & Hok').
     + intros cs cs' Hcs Hcs'. cbv beta in Hcs'. destruct (env_dup v).
-      * destruct cs as [|c0 r]; [discriminate Hcs'|].
+      * destruct cs as [|c0 r];
+          [injection Hcs' as <-; constructor; [apply okn_empty_cell|exact Hcs]|].
         injection Hcs' as <-. inversion Hcs; subst.
         constructor; [apply copy_node_okn; assumption|exact Hcs].
       * injection Hcs' as <-. constructor; [apply okn_empty_cell|exact Hcs].
